@@ -6,7 +6,10 @@ new = object.__new__
 
 def create_reduced(p, q, _cache={}):
     key = p, q
-    if key in _cache:
+    # only genuine integers go through the cache (a float or mpf numerator
+    # compares and hashes equal to the integer key)
+    cacheable = isinstance(p, int_types) and isinstance(q, int_types)
+    if cacheable and key in _cache:
         return _cache[key]
     x, y = p, q
     while y:
@@ -17,10 +20,7 @@ def create_reduced(p, q, _cache={}):
     v = new(mpq)
     v._mpq_ = p, q
     # Speedup integers, half-integers and other small fractions
-    # (never store an object built from a float or mpf numerator that
-    # merely compares and hashes equal to the integer key)
-    if q <= 4 and abs(key[0]) < 100 and isinstance(key[0], int_types) and \
-        isinstance(key[1], int_types):
+    if cacheable and q <= 4 and abs(key[0]) < 100:
         _cache[key] = v
     return v
 
